@@ -5,6 +5,7 @@ import Mahotas.Proofs.C05Nd
 import Mahotas.Proofs.C05Strided
 import Mahotas.Proofs.C05Abscissa
 import Mahotas.Proofs.C05Bounds
+import Mahotas.Proofs.C05Rounded
 open Mahotas Mahotas.C05 Mahotas.C04
 
 /-- **C05-T1 (the 1-D pass is the exact lower envelope).** For every integer line `f` of every
@@ -300,3 +301,109 @@ example : (distanceModel [2, 2, 3] #[1, 1, 1, 1, 1, 1, 1, 1, 1, 1, 0, 1]).1
     = #[3, 2, 3, 2, 1, 2, 2, 1, 2, 1, 0, 1] := by decide +kernel
 example : Rounding id ∧ AbscissaExact id (fun _ => 0) 5 :=
   ⟨⟨fun _ _ h => h, fun x => by simp; positivity, fun _ _ => rfl⟩, ⟨fun _ _ _ _ _ _ _ _ => Iff.rfl, fun _ _ _ _ _ _ => Iff.rfl⟩⟩
+
+/-! ## Round 3 — the whole-image model with rounded abscissae -/
+
+/-- **C05 (what the rounded whole-image model is).** `distanceRounded rnd` (proof-side definition,
+`Proofs/C05Rounded.lean`) starts from the same images as `distanceCoord` (`initCoord`: 0 on the background,
+the Python sentinel elsewhere; origins = own flat index) and folds `passCoordR rnd` over the axes in the
+same order. `passCoordR rnd` is `passCoord` with the 1-D kernel with ROUNDED abscissae on every line: the
+value it writes at a pixel `p` is the entry of `dt1dR rnd` — `(q − v)² + f v` for the owner `v` that
+`owners1dR rnd` (first loop `buildR`/`popToR`/`pushR` with every abscissa `rnd (s)`, stored and compared
+rounded; read-out walk against the integers) reports at `q = p_ax` — for the line through `p`, and the
+origin it writes is the previous origin at that owner. With the identity for `rnd` the kernel is the exact
+one. -/
+theorem C05_rounded_is_line_kernel (rnd : ℚ → ℚ) :
+    (∀ shape bw, distanceRounded rnd shape bw =
+        (List.range shape.length).foldl (passCoordR rnd) (initCoord shape bw)) ∧
+    (∀ (fo : Img Int × Img Int) (ax : Nat) (p : List Int), inside fo.1.shape p = true →
+      ax < fo.1.shape.length →
+      (passCoordR rnd fo ax).1.getD p 0 = (dt1dR rnd (lineOf fo.1 p ax)).getD (p.getD ax 0).toNat 0 ∧
+      (passCoordR rnd fo ax).2.getD p 0 =
+        fo.2.getD (p.set ax ((ownerAtR rnd (lineOf fo.1 p ax) (p.getD ax 0).toNat : Nat) : Int)) 0) ∧
+    (∀ f : Array Int, owners1dR id f = owners1d f) :=
+  ⟨fun _ _ => rfl, fun fo ax p hp hax => passCoordR_is_dt1dR rnd fo ax p hp hax, owners1dR_id⟩
+
+/-- **C05 (one pass with the rounded kernel).** For ANY pair of images and any axis: if the kernel with
+rounded abscissae selects the owners of the exact kernel on the line through every pixel, the rounded pass
+returns exactly the pair of images (values and tracked origins) of the exact pass `passCoord`. -/
+theorem C05_rounded_pass_exact (rnd : ℚ → ℚ) (fo : Img Int × Img Int) (ax : Nat)
+    (h : ∀ p : List Int, owners1dR rnd (lineOf fo.1 p ax) = owners1d (lineOf fo.1 p ax)) :
+    passCoordR rnd fo ax = passCoord fo ax :=
+  passCoordR_eq_of_owners rnd fo ax h
+
+/-- **C05 (doubles compute the same image as rationals: the whole function).** For every rounding function
+with the properties of one IEEE-754 binary64 round-to-nearest division in the normal range (`Rounding`:
+monotone, relative error at most `2⁻⁵³`, exact on integers up to `2⁵³`), every rank and shape whose sides
+are at most `2¹²` and whose Python sentinel is at most `2²⁶` (the side condition of
+`C05_rounded_passes_same_owners`: every 1-D, 2-D and 3-D array with sides `≤ 2¹²`, every 4-D array with
+sides `< 2¹²`) and every input `bw`: the whole-image model in which EVERY intersection abscissa of EVERY
+kernel call of EVERY pass is rounded returns exactly the same pair of images — values AND tracked origins
+— as the exact-rational model `distanceCoord` that T2/T3 are about and that the driver runs. (Induction
+over the passes: the images before pass `k` are equal by induction, so the lines are those of the exact
+passes, whose values lie in `[0, sentinel]`, so by the separation lemma every comparison on rounded
+abscissae has the exact outcome and the same owners are selected line by line.) -/
+theorem C05_rounded_image_exact (rnd : ℚ → ℚ) (hr : Rounding rnd) (shape : List Nat) (bw : Array Int)
+    (hside : ∀ d ∈ shape, d ≤ 2 ^ 12) (hsent : sentinel shape ≤ 2 ^ 26) :
+    distanceRounded rnd shape bw = distanceCoord shape bw :=
+  distanceRounded_eq_small rnd hr shape bw hside hsent
+
+/-- **C05 (the same, under the general numeric bound).** Same conclusion for every shape whose sides are at
+most `N + 1` (indices `0 … N`) with `4·N²·(sentinel + N²) < 2⁵³`: e.g. every 1-D line of up to 5793 samples,
+every 2-D array with sides up to 5234 — slightly beyond the round figures `2¹²`/`2²⁶`. -/
+theorem C05_rounded_image_exact_of_bound (rnd : ℚ → ℚ) (hr : Rounding rnd) (shape : List Nat)
+    (bw : Array Int) (N : ℕ) (hside : ∀ d ∈ shape, d ≤ N + 1)
+    (hB : 4 * (N : ℚ) ^ 2 * ((sentinel shape : ℚ) + (N : ℚ) ^ 2) < 2 ^ 53) :
+    distanceRounded rnd shape bw = distanceCoord shape bw :=
+  distanceRounded_eq_of_bound rnd hr shape bw N hside hB
+
+/-- **C05-T2 for the rounded whole-image model (`C05_distance_exact` / `C05_model_exact` transferred).**
+Under the side condition of `C05_rounded_image_exact`, with some background pixel: the value that the model
+with rounded abscissae returns at every pixel `p` is a lower bound of the squared distance from `p` to every
+background pixel and equals the squared distance to one of them; and for an input of matching size the flat
+arrays of the model of the code (`distanceModel`: `py_dt` on strided views) are the data of the rounded
+model's images (values and origins). -/
+theorem C05_rounded_model_exact (rnd : ℚ → ℚ) (hr : Rounding rnd) (shape : List Nat) (bw : Array Int)
+    (hside : ∀ d ∈ shape, d ≤ 2 ^ 12) (hsent : sentinel shape ≤ 2 ^ 26) :
+    (∀ p, inside shape p = true →
+      (∃ q0, inside shape q0 = true ∧ bw.getD (ravelI shape q0) 0 = 0) →
+      (∀ q, inside shape q = true → bw.getD (ravelI shape q) 0 = 0 →
+          (distanceRounded rnd shape bw).1.getD p 0 ≤ sqDist p q) ∧
+      (∃ q, inside shape q = true ∧ bw.getD (ravelI shape q) 0 = 0 ∧
+          (distanceRounded rnd shape bw).1.getD p 0 = sqDist p q)) ∧
+    (bw.size = shapeSize shape →
+      (distanceModel shape bw).1 = (distanceRounded rnd shape bw).1.data ∧
+      (distanceModel shape bw).2 = (distanceRounded rnd shape bw).2.data) := by
+  rw [C05_rounded_image_exact rnd hr shape bw hside hsent]
+  exact ⟨fun p hp hbg => C05_distance_exact shape bw p hp hbg, fun hsz => C05_model_eq_coord shape bw hsz⟩
+
+/-- **C05-T3 for the rounded whole-image model (`C05_gvoronoi_nearest` transferred).** Under the side
+condition of `C05_rounded_image_exact`: the origin tracked through the passes with rounded abscissae is, at
+every pixel, a labelled pixel at minimum squared Euclidean distance; labelled pixels keep their label. -/
+theorem C05_rounded_gvoronoi_nearest (rnd : ℚ → ℚ) (hr : Rounding rnd) (shape : List Nat) (lab : Array Int)
+    (hside : ∀ d ∈ shape, d ≤ 2 ^ 12) (hsent : sentinel shape ≤ 2 ^ 26)
+    (hsz : lab.size = shapeSize shape) (p : List Int) (hp : inside shape p = true)
+    (hlab : ∃ q0, inside shape q0 = true ∧ lab.getD (ravelI shape q0) 0 ≠ 0) :
+    let bw := lab.map fun l => if l == 0 then (1 : Int) else 0
+    let o := unravelI shape ((distanceRounded rnd shape bw).2.getD p 0).toNat
+    inside shape o = true ∧
+    lab.getD ((distanceRounded rnd shape bw).2.getD p 0).toNat 0 = lab.getD (ravelI shape o) 0 ∧
+    lab.getD (ravelI shape o) 0 ≠ 0 ∧
+    (∀ q, inside shape q = true → lab.getD (ravelI shape q) 0 ≠ 0 → sqDist p o ≤ sqDist p q) ∧
+    (lab.getD (ravelI shape p) 0 ≠ 0 → o = p) := by
+  simp only [C05_rounded_image_exact rnd hr shape _ hside hsent]
+  exact C05_gvoronoi_nearest shape lab hsz p hp hlab
+
+/-- non-vacuity: the identity on `ℚ` is a `Rounding`; the rounded whole-image model evaluates on a 2×2×3
+image (values and origins) and on a 3×4 image, and agrees with `distanceCoord` there -/
+example : Rounding id ∧ (∀ d ∈ [2, 2, 3], d ≤ 2 ^ 12) ∧ sentinel [2, 2, 3] ≤ 2 ^ 26 :=
+  ⟨⟨fun _ _ h => h, fun x => by simp; positivity, fun _ _ => rfl⟩, by decide, by decide⟩
+example : (distanceRounded id [2, 2, 3] #[1, 1, 1, 1, 1, 1, 1, 1, 1, 1, 0, 1]).1.data
+    = #[3, 2, 3, 2, 1, 2, 2, 1, 2, 1, 0, 1] ∧
+    (distanceRounded id [2, 2, 3] #[1, 1, 1, 1, 1, 1, 1, 1, 1, 1, 0, 1]).2.data
+    = #[10, 10, 10, 10, 10, 10, 10, 10, 10, 10, 10, 10] := by decide +kernel
+example : (distanceRounded id [3, 4] #[1, 0, 1, 1, 1, 1, 1, 1, 1, 1, 0, 1]).1.data
+    = (distanceCoord [3, 4] #[1, 0, 1, 1, 1, 1, 1, 1, 1, 1, 0, 1]).1.data ∧
+    (distanceRounded id [3, 4] #[1, 0, 1, 1, 1, 1, 1, 1, 1, 1, 0, 1]).2.data
+    = #[1, 1, 1, 1, 1, 1, 10, 10, 10, 10, 10, 10] := by decide +kernel
+example : dt1dR id #[5, 9, 0, 9, 9, 1] = [4, 1, 0, 1, 2, 1] := by decide +kernel
